@@ -8,7 +8,8 @@ system call. The LINE callback runs in the thread about to execute the line and 
 scheduler grants it the next step.
 
 The schedule is data (replayable):
-  {"mode": "none"}                                     run the participants one after the other
+  {"mode": "none"[, "trace": true]}                    run the participants one after the other (trace: also report the
+                                                       (file, function) of every step, for the harness to aim its sweeps)
   {"mode": "switch", "points": [[t, n, u], ...]}       when participant t is about to make its n-th step: switch to u
                                                        (u runs until it finishes or hits its own switch point)
   {"mode": "prng", "seed": s, "max": m, "p": 0.02}     at each step switch to a random other live participant with
@@ -56,6 +57,8 @@ class Sched:
         self.line_hits = {}
         self.lock = threading.Lock()
         self.tracked = {}
+        self.want_trace = bool(schedule.get("trace"))
+        self.trace = [[] for _ in range(n)]
 
     # -- called by participant threads
     def wait_turn(self, i):
@@ -105,6 +108,8 @@ class Sched:
         if i is None or self.done[i]:
             return None
         self.steps[i] += 1
+        if self.want_trace:
+            self.trace[i].append([os.path.basename(fn), code.co_name])
         mode = self.schedule.get("mode", "none")
         if mode == "switch":
             u = self.points.get((i, self.steps[i]))
@@ -179,8 +184,9 @@ def main(spec):
             except OSError:
                 pass
             try:
+                moddir = spec.get("moddirs", {}).get(str(p.get("ver", 0)), spec["moddir"])
                 if p["kind"] == "call":
-                    mod = _load_func(spec["moddir"])
+                    mod = _load_func(moddir)
                     cb = {"none": None, "long": expires_after(days=1), "now": expires_after(seconds=-1)}[p.get("cb", "none")]
                     mem = Memory(cache, verbose=0)
                     cf = mem.cache(mod.f, cache_validation_callback=cb)
@@ -193,6 +199,19 @@ def main(spec):
                 elif p["kind"] == "clear":
                     mem = Memory(cache, verbose=0)
                     mem.clear(warn=False)
+                    results[i] = dict(outcome=["ok", None])
+                elif p["kind"] == "fclear":  # MemorizedFunc.clear()
+                    mod = _load_func(moddir)
+                    mem = Memory(cache, verbose=0)
+                    mem.cache(mod.f).clear(warn=False)
+                    results[i] = dict(outcome=["ok", None])
+                elif p["kind"] == "iclear":  # MemorizedResult.clear() of the entry of argument a
+                    from joblib.memory import MemorizedResult
+
+                    mod = _load_func(moddir)
+                    mem = Memory(cache, verbose=0)
+                    cf = mem.cache(mod.f)
+                    MemorizedResult(mem.store_backend, (cf.func_id, p["args_id"])).clear()
                     results[i] = dict(outcome=["ok", None])
             except BaseException as e:  # noqa: BLE001
                 import traceback
@@ -220,7 +239,8 @@ def main(spec):
         t.join(spec.get("timeout", 60))
     mon.set_events(tool, 0)
     hung = [t.name for t in threads if t.is_alive()]
-    print(json.dumps(dict(results=results, steps=sched.steps, switches=sched.switches, hung=hung)))
+    print(json.dumps(dict(results=results, steps=sched.steps, switches=sched.switches, hung=hung,
+                          trace=sched.trace if sched.want_trace else None)))
     sys.stdout.flush()
     if hung:
         os._exit(4)
